@@ -26,11 +26,11 @@ type c12Sil struct {
 }
 
 type c12Req struct {
-	ID        string `json:"id"`
+	ID        string    `json:"id"`
 	StartsAt  time.Time `json:"startsAt"`
 	EndsAt    time.Time `json:"endsAt"`
-	CreatedBy string `json:"createdBy"`
-	Comment   string `json:"comment"`
+	CreatedBy string    `json:"createdBy"`
+	Comment   string    `json:"comment"`
 	Matchers  []struct {
 		Name    string `json:"name"`
 		Value   string `json:"value"`
@@ -486,9 +486,9 @@ func c12Check(p *Plan, r *RunResult) *Verdict {
 func init() {
 	Register(&Prop{
 		ID: "C12", Level: "exploration", Gen: c12Gen, Check: c12Check,
-		Rule: "seeded sequence over 1-4 silences: create (active or pending), then 2-9 (thorough 4-16) operations per silence placed at +-1 ms / +-1 s around its start, end and end+retention and at random instants: edit comment, creator, end (incl. into the past), start, matchers; expire; explicit GC; invalid creates (matchers matching the empty string, bad regex, end before start, end in the past); edits of an unknown id; extra creates with comments around the size limit; optional count and size limits; retention 30 s-8 min, maintenance GC every 20 s-4 min; GET /silences 1 ms after every call. Non-trivial: at least one response or listing was compared with the lifecycle model; distinct by abstract trace.",
-		Real: []string{"app.New wiring", "api/v2 silence handlers", "silence.Silences (Set, canUpdate, expire, GC, Query, Maintenance)"},
-		Stub: []string{"clock (synctest)", "client (in-memory HTTP)", "snapshot disk (simfs)"},
+		Rule:        "seeded sequence over 1-4 silences: create (active or pending), then 2-9 (thorough 4-16) operations per silence placed at +-1 ms / +-1 s around its start, end and end+retention and at random instants: edit comment, creator, end (incl. into the past), start, matchers; expire; explicit GC; invalid creates (matchers matching the empty string, bad regex, end before start, end in the past); edits of an unknown id; extra creates with comments around the size limit; optional count and size limits; retention 30 s-8 min, maintenance GC every 20 s-4 min; GET /silences 1 ms after every call. Non-trivial: at least one response or listing was compared with the lifecycle model; distinct by abstract trace.",
+		Real:        []string{"app.New wiring", "api/v2 silence handlers", "silence.Silences (Set, canUpdate, expire, GC, Query, Maintenance)"},
+		Stub:        []string{"clock (synctest)", "client (in-memory HTTP)", "snapshot disk (simfs)"},
 		Assumptions: []string{"operations are placed 1 ms or more away from start/end instants, never exactly on them", "an in-place edit of an active silence may store either the old or the submitted start (same second)", "a request within 120 bytes of the size limit may be rejected or accepted (the encoded size is not reproduced)"},
 	})
 }
